@@ -222,6 +222,13 @@ func init() {
 		fr.w.opaqueParseFloat = liftBool(args[0]) == trueT
 		return nil
 	})
+	reg(zz+"CaptureStdout", func(fr *frame, args []Value) Value {
+		fr.w.out = fr.w.out[:0]
+		return nil
+	})
+	reg(zz+"Stdout", func(fr *frame, args []Value) Value {
+		return Str{b: append([]Value(nil), fr.w.out...)}
+	})
 	reg(zz+"SplitDiv", func(fr *frame, args []Value) Value {
 		fr.w.splitDiv = liftBool(args[0]) == trueT
 		return nil
